@@ -83,6 +83,12 @@ const TARGETS: &[Target] = &[
              func: "compress_delimiter", calls: &[], deps: &[], imports: "Model.Scan Tie.RsStr Tie.RsScan", ret_muts: true, fuel: "" },
     Target { name: "trim", file: "src/cut_str.rs", impl_trait: None, impl_self: None,
              func: "trim", calls: &[], deps: &[], imports: "Model.Scan Tie.RsStr Tie.RsScan", ret_muts: false, fuel: "(S (length buffer))" },
+    Target { name: "fb_try_from", file: "src/stream.rs", impl_trait: Some("TryFrom"), impl_self: Some("ForwardBounds"),
+             func: "try_from", calls: &[("is_forward_only", "gen_ubl_is_forward_only"), ("into", "model_from_vec")], deps: &["ubl_is_forward_only"],
+             imports: "Model.Scan Model.Regex Model.Opt Model.Stream Tie.RsOpt Tie.RsList", ret_muts: false, fuel: "" },
+    Target { name: "maybe_replace", file: "src/cut_str.rs", impl_trait: None, impl_self: None,
+             func: "maybe_replace_delimiter", calls: &[("replace_all", "rx_replace_all")], deps: &[],
+             imports: "Model.Scan Model.Regex Model.Opt Model.CutStr Tie.RsRegex", ret_muts: false, fuel: "" },
     Target { name: "fast_try_from", file: "src/fast_lane.rs", impl_trait: Some("TryFrom"), impl_self: Some("FastOpt"),
              func: "try_from", calls: &[], deps: &[], imports: "Model.Scan Model.Regex Model.Opt Tie.RsOpt", ret_muts: false, fuel: "" },
     Target { name: "stream_try_from", file: "src/stream.rs", impl_trait: Some("TryFrom"), impl_self: Some("StreamOpt"),
@@ -90,7 +96,7 @@ const TARGETS: &[Target] = &[
 ];
 
 #[derive(Clone, PartialEq, Debug)]
-enum Ty { I32, Usize, Bool, Side, UB, Range, Opt(Box<Ty>), List(Box<Ty>), OptRec, FastRec, BType, Bytes, Byte, Str, Pair(Box<Ty>, Box<Ty>), Other }
+enum Ty { I32, Usize, Bool, Side, UB, UBL, Range, Opt(Box<Ty>), List(Box<Ty>), OptRec, FastRec, BType, Bytes, Byte, Str, Pair(Box<Ty>, Box<Ty>), Other }
 
 type R<T> = std::result::Result<T, String>;
 
@@ -120,6 +126,14 @@ struct Cx {
 
 const KEYWORDS: &[&str] = &["end", "match", "with", "fun", "let", "in", "if", "then", "else", "return", "as", "at", "fix",
     "forall", "exists", "Type", "Set", "Prop", "where", "for", "using", "cofix", "struct", "mod", "left", "right", "by", "do", "Some", "None"];
+
+fn flatten_tokens(t: proc_macro2::TokenTree) -> Vec<String> {
+    match t {
+        proc_macro2::TokenTree::Group(g) => g.stream().into_iter().flat_map(flatten_tokens).collect(),
+        proc_macro2::TokenTree::Punct(p) if p.spacing() == proc_macro2::Spacing::Joint => vec![format!("{}~", p.as_char())],
+        other => vec![other.to_string()],
+    }
+}
 
 fn ident(s: &str) -> String {
     let s = s.trim_start_matches("r#");
@@ -206,6 +220,8 @@ fn field(recv: &Ty, name: &str) -> Option<(&'static str, Ty)> {
         "end" => ("snd", Ty::Usize),
         "list" => ("items", Ty::List(Box::new(Ty::Other))),
         "last_interesting_field" => ("lif", Ty::Side),
+        "normal" => ("rb_normal", Ty::Other),
+        "greedy" => ("rb_greedy", Ty::Other),
         _ => return None,
     })
 }
@@ -231,7 +247,7 @@ fn ty_of_type(t: &Type) -> (String, Ty) {
                 "Side" => ("side".into(), Ty::Side),
                 "Ordering" => ("comparison".into(), Ty::Other),
                 "UserBounds" => ("ubound".into(), Ty::UB),
-                "UserBoundsList" => ("ublist".into(), Ty::Other),
+                "UserBoundsList" => ("ublist".into(), Ty::UBL),
                 "Opt" => ("opt".into(), Ty::OptRec),
                 "FastOpt" => ("gfopt".into(), Ty::FastRec),
                 "Trim" => ("trimk".into(), Ty::Other),
@@ -240,6 +256,9 @@ fn ty_of_type(t: &Type) -> (String, Ty) {
                 "BoundOrFiller" => ("bof".into(), Ty::Other),
                 "Range" => ("(Z * Z)%type".into(), Ty::Range),
                 "Option" | "Result" => { let (c, t) = arg0(); (format!("(option {})", c), Ty::Opt(Box::new(t))) }
+                "Cow" => match &seg.arguments {
+                    PathArguments::AngleBracketed(a) => a.args.iter().find_map(|g| if let GenericArgument::Type(t) = g { Some(ty_of_type(t)) } else { None }).unwrap_or(("UNKNOWN".into(), Ty::Other)),
+                    _ => ("UNKNOWN".into(), Ty::Other) },
                 "Vec" => { let (c, t) = arg0(); (format!("(list {})", c), Ty::List(Box::new(t))) }
                 other => (format!("UNKNOWN_{}", other), Ty::Other),
             }
@@ -276,6 +295,11 @@ impl Cx {
         }
         ident(v)
     }
+    /// does the closure assign to one of the `let mut` variables in scope?
+    fn closure_assigns(&self, e: &Expr) -> bool {
+        let toks: Vec<String> = quote::ToTokens::to_token_stream(e).into_iter().flat_map(flatten_tokens).collect();
+        toks.windows(2).any(|w| self.muts.contains(&w[0]) && (w[1] == "=" || w[1] == "+~" || w[1] == "-~"))
+    }
     fn lookup(&self, v: &str) -> Option<Ty> {
         self.env.iter().rev().find(|(n, _)| n == v).map(|(_, t)| t.clone())
     }
@@ -287,6 +311,9 @@ impl Cx {
             Expr::Index(ix) if matches!(&*ix.index, Expr::Range(_)) => self.ty(&ix.expr),
             Expr::Index(ix) => match self.ty(&ix.expr) { Ty::List(t) => *t, Ty::Bytes => Ty::Byte, _ => Ty::Other },
             Expr::Path(p) if path_str(&p.path).starts_with("BoundsType::") => Ty::BType,
+            Expr::Path(p) if path_str(&p.path).starts_with("Side::") => Ty::Side,
+            Expr::Call(c) if matches!(&*c.func, Expr::Path(p) if path_str(&p.path) == "Side::Some") => Ty::Side,
+            Expr::Match(m) if !m.arms.is_empty() => { let t = self.ty(&m.arms[0].body); if t == Ty::Other && m.arms.len() > 1 { self.ty(&m.arms[1].body) } else { t } }
             Expr::Path(p) => { let s = path_str(&p.path); self.lookup(&s).unwrap_or(if unit_ctor(&s).map_or(false, |c| c == "true" || c == "false") { Ty::Bool } else { Ty::Other }) }
             Expr::Paren(p) => self.ty(&p.expr),
             Expr::Reference(r) => self.ty(&r.expr),
@@ -296,7 +323,8 @@ impl Cx {
             Expr::Try(t) => match self.ty(&t.expr) { Ty::Opt(t) => *t, _ => Ty::Other },
             Expr::MethodCall(m) => match m.method.to_string().as_str() {
                 "is_positive" | "is_negative" | "is_some" | "is_none" => Ty::Bool,
-                "clone" | "into_iter" | "iter" | "as_bytes" | "as_ref" | "to_owned" | "as_deref" => self.ty(&m.receiver),
+                "clone" | "into_iter" | "iter" | "as_bytes" | "as_ref" | "to_owned" | "as_deref" | "cloned" | "rev" => self.ty(&m.receiver),
+                "enumerate" => Ty::List(Box::new(Ty::Pair(Box::new(Ty::Usize), Box::new(match self.ty(&m.receiver) { Ty::List(t) => *t, _ => Ty::Other })))),
                 "len" => Ty::Usize,
                 "split_once" => Ty::Opt(Box::new(Ty::Pair(Box::new(Ty::Str), Box::new(Ty::Str)))),
                 "find_iter" => Ty::List(Box::new(Ty::Usize)),
@@ -404,8 +432,11 @@ impl Cx {
                     ("is_positive", 0) => format!("(0 <? {})", recv),
                     ("is_negative", 0) => format!("({} <? 0)", recv),
                     ("cmp", 1) => format!("(i32_cmp {} {})", recv, args[0]),
-                    ("clone", 0) | ("into_iter", 0) | ("iter", 0) | ("as_bytes", 0) | ("as_ref", 0) | ("to_owned", 0) | ("as_deref", 0) => recv,
+                    ("clone", 0) | ("into_iter", 0) | ("iter", 0) | ("as_bytes", 0) | ("as_ref", 0) | ("to_owned", 0) | ("as_deref", 0) | ("cloned", 0) => recv,
+                    ("enumerate", 0) => format!("(enumerate_z (to_list {}))", recv),
+                    ("rev", 0) => format!("(List.rev {})", recv),
                     ("len", 0) => format!("(Z.of_nat (length {}))", recv),
+                    ("is_empty", 0) if self.ty(&m.receiver) == Ty::UBL => format!("(match (items {}) with [] => true | _ => false end)", recv),
                     ("is_empty", 0) => format!("(match {} with [] => true | _ => false end)", recv),
                     ("find_iter", 1) => format!("(find_iter_z {} {})", args[0], recv),
                     ("starts_with", 1) => format!("(starts_with {} {})", args[0], recv),
@@ -421,6 +452,8 @@ impl Cx {
                         format!("(parse_i32 {})", recv)
                     }
                     ("first", 0) => format!("(hd_error {})", recv),
+                    ("replace", 2) if matches!(self.ty(&m.receiver), Ty::Bytes | Ty::Str) => format!("(bytes_replace {} {} {})", args[0], args[1], recv),
+                    ("unwrap_or", 1) => format!("(match {} with Some v_ => v_ | None => {} end)", recv, args[0]),
                     ("is_none", 0) | ("is_err", 0) => format!("(match {} with None => true | _ => false end)", recv),
                     ("is_ok", 0) => format!("(match {} with None => false | _ => true end)", recv),
                     ("into", 0) if self.ty(&m.receiver) == Ty::Byte => recv,
@@ -435,6 +468,7 @@ impl Cx {
                 let mut args = vec![];
                 for a in &c.args { match self.pure(a)? { Some(x) => args.push(x), None => return Ok(None) } }
                 if f == "Err" { "None".to_string() }
+                else if (f.ends_with("Cow::Borrowed") || f.ends_with("Cow::Owned") || f.ends_with("NoExpand")) && args.len() == 1 { args[0].clone() }
                 else if f == "Vec::new" && args.is_empty() { "[]".to_string() }
                 else if f == "memchr::memchr_iter" && args.len() == 2 { format!("(memchr_iter {} {})", args[0], args[1]) }
                 else if let Some((g, _)) = ctor1(&f) { if args.len() != 1 { return Err("constructor arity".into()); } format!("({} {})", g, args[0]) }
@@ -816,6 +850,26 @@ impl Cx {
                 let after = format!("(fun {} => match {} with Next {} => ({} (Some tt)) | Stop {} => ({} (Some tt)) | Break {} => ({} (@None unit)) end)", r, r, sp, k, sp, k, sp, k);
                 self.tr(&m.receiver, &format!("(fun {} => (bind (loopM (fun {} {} => {}) (to_list {}) {}) {}))", src, st_pat, p, body?, src, st_tup, after))
             }
+            Expr::MethodCall(m) if m.method == "any" && m.args.len() == 1 && matches!(&m.args[0], Expr::Closure(_)) && self.closure_assigns(&m.args[0]) => {
+                let clo = match &m.args[0] { Expr::Closure(c) => c, _ => unreachable!() };
+                if clo.inputs.len() != 1 { return Err("closure arity".into()); }
+                let st_pat = self.muts_pat(); let st_tup = self.muts_tuple();
+                let elem_ty = match self.ty(&m.receiver) { Ty::Range => Ty::Usize, Ty::List(t) => *t, _ => Ty::Other };
+                let mark = self.env.len(); let mmark = self.muts.len();
+                self.tuple_hint = vec![];
+                let (p, irr) = self.pat(&clo.inputs[0], elem_ty)?;
+                if !irr { return Err("refutable closure parameter".into()); }
+                let ck = format!("(fun r : bool => if r then Ret (Stop {}) else Ret (Next {}))", st_tup, st_tup);
+                let saved_ret_ty = std::mem::replace(&mut self.ret_ty, "_".to_string()); self.retk_stack.push(ck.clone());
+                let body = self.tr(&clo.body, &ck);
+                self.retk_stack.pop(); self.ret_ty = saved_ret_ty;
+                self.env.truncate(mark); self.muts.truncate(mmark);
+                let (src, r) = (self.fresh("a"), self.fresh("r"));
+                let sp = st_pat.trim_start_matches('\'');
+                let pp = if p.starts_with('(') { format!("'{}", p) } else { p };
+                let after = format!("(fun {} : ctrl _ unit => match {} with Next {} => ({} false) | Stop {} => ({} true) | Break _ => ({} false) end)", r, r, sp, k, sp, k, k);
+                self.tr(&m.receiver, &format!("(fun {} => (bind (loopM (fun {} {} => {}) (to_list {}) {}) {}))", src, st_pat, pp, body?, src, st_tup, after))
+            }
             Expr::MethodCall(m) if ["for_each", "any", "flat_map"].contains(&m.method.to_string().as_str()) && m.args.len() == 1 && matches!(&m.args[0], Expr::Closure(_)) => {
                 let clo = match &m.args[0] { Expr::Closure(c) => c, _ => unreachable!() };
                 if clo.inputs.len() != 1 { return Err("closure arity".into()); }
@@ -884,6 +938,7 @@ impl Cx {
                 let names: Vec<String> = c.args.iter().map(|_| self.fresh("a")).collect();
                 let head = if let Some(g) = self.calls.get(&f).cloned() { format!("(bind ({} {}) {})", g, names.join(" "), k) }
                            else if f == "Err" { format!("({} None)", k) }
+                           else if (f.ends_with("Cow::Borrowed") || f.ends_with("Cow::Owned") || f.ends_with("NoExpand")) && names.len() == 1 { format!("({} {})", k, names[0]) }
                            else if let Some((g, _)) = ctor1(&f) { format!("({} ({} {}))", k, g, names.join(" ")) }
                            else { return Err(format!("call of `{}`", f)); };
                 let mut acc = head;
@@ -898,7 +953,7 @@ impl Cx {
                 let x = self.fresh("t");
                 self.tr(inner, &format!("(fun {} => (bind (usize_to_i32 {}) {}))", x, x, k))
             }
-            Expr::MethodCall(m) if m.args.is_empty() && ["clone", "into_iter", "iter", "as_bytes", "as_ref", "to_owned", "as_deref"].contains(&m.method.to_string().as_str()) => self.tr(&m.receiver, k),
+            Expr::MethodCall(m) if m.args.is_empty() && ["clone", "into_iter", "iter", "as_bytes", "as_ref", "to_owned", "as_deref", "cloned"].contains(&m.method.to_string().as_str()) => self.tr(&m.receiver, k),
             Expr::MethodCall(m) if m.args.len() == 1 && (m.method == "starts_with" || m.method == "ends_with") => {
                 let arg = self.pure(&m.args[0])?.ok_or("starts_with/ends_with with an effectful argument")?;
                 let x = self.fresh("t");
@@ -954,6 +1009,10 @@ impl Cx {
                 self.env.truncate(mark);
                 let src = self.fresh("a");
                 self.tr(&mp.receiver, &format!("(fun {} => (bind (mapM (fun {} => {}) (to_list {})) {}))", src, p, body, src, k))
+            }
+            Expr::MethodCall(m) if m.method == "collect" && m.args.is_empty() && self.ty(&m.receiver) == Ty::UBL => {
+                let x = self.fresh("t");
+                self.tr(&m.receiver, &format!("(fun {} => ({} (items {})))", x, k, x))
             }
             Expr::MethodCall(m) if m.method == "collect" && m.args.is_empty() => self.tr(&m.receiver, k),
             Expr::MethodCall(m) => {
@@ -1044,6 +1103,7 @@ impl Cx {
                     Pat::Ident(pi) if pi.mutability.is_some() && matches!(&*init.expr, Expr::Lit(ExprLit { lit: Lit::Int(i), .. }) if i.suffix().is_empty()) => Ty::Other,
                     _ => self.ty(&init.expr) };
                 let mark = self.env.len();
+                let mm0 = self.muts.len();
                 self.tuple_hint = vec![];
                 // `let mut s = s;` re-binds a name to its own value: harmless
                 self.rebind_ok = matches!((&l.pat, &*init.expr), (Pat::Ident(pi), Expr::Path(ep)) if ep.path.is_ident(&pi.ident));
@@ -1052,6 +1112,8 @@ impl Cx {
                 let (p, irrefutable) = pr?;
                 if !irrefutable { return Err("refutable let pattern".into()); }
                 let rest_s = self.stmts(rest, k)?;
+                // the initialiser knows neither this binding nor the `let mut`s declared after it
+                self.muts.truncate(mm0);
                 // the initialiser sees the environment from before the binding (shadowing)
                 let bound: Vec<(String, Ty)> = self.env.drain(mark..).collect();
                 let r = self.tr(&init.expr, &format!("(fun {}{} => {})", if p.starts_with('(') { "'" } else { "" }, p, rest_s));
@@ -1064,7 +1126,9 @@ impl Cx {
                     // `expr;` in tail position: its value is dropped, the block yields ()
                     return self.tr(e, &format!("(fun _ => ({} tt))", k));
                 }
+                let mm0 = self.muts.len();
                 let rest_s = self.stmts(rest, k)?;
+                self.muts.truncate(mm0);
                 let unit = matches!(e, Expr::If(ExprIf { else_branch: None, .. }));
                 self.tr(e, &format!("(fun _{} => {})", if unit { " : unit" } else { "" }, rest_s))
             }
@@ -1119,6 +1183,9 @@ fn ret_type(t: &Type) -> Option<String> {
                 "BoundOrFiller" => "bof".into(),
                 "Range" => "(Z * Z)%type".into(),
                 "Option" | "Result" => format!("(option {})", arg(0)?),
+                "Cow" => match &seg.arguments {
+                    PathArguments::AngleBracketed(a) => a.args.iter().find_map(|g| if let GenericArgument::Type(t) = g { ret_type(t) } else { None })?,
+                    _ => return None },
                 "Vec" => format!("(list {})", arg(0)?),
                 _ => return None,
             })
@@ -1131,6 +1198,7 @@ fn ret_type(t: &Type) -> Option<String> {
 fn struct_ctor(name: &str) -> Option<(&'static str, &'static [&'static str])> {
     Some(match name {
         "FastOpt" => ("mkGFO", &["delimiter", "join", "eol", "bounds", "only_delimited", "trim", "fallback_oob"]),
+        "ForwardBounds" => ("mkFB", &["list", "last_bound_idx"]),
         "StreamOpt" => ("mkGSO", &["delimiter", "replace_delimiter", "join", "eol", "bounds", "fallback_oob"]),
         _ => return None,
     })
@@ -1179,9 +1247,15 @@ fn quote_type(t: &Type) -> String {
     match t { Type::Path(p) => path_str(&p.path), Type::Reference(r) => quote_type(&r.elem), _ => "UNKNOWN".into() }
 }
 
+fn compiled_out(attrs: &[Attribute]) -> bool {
+    // #[cfg(not(feature = ".."))]: not part of the default build, which is the one under verification
+    attrs.iter().any(|a| a.path().is_ident("cfg") && quote::ToTokens::to_token_stream(&a.meta).to_string().replace(' ', "").starts_with("cfg(not("))
+}
+
 fn find_fn<'a>(file: &'a File, t: &Target) -> Option<(&'a Signature, &'a Block, usize)> {
     for it in &file.items {
         match it {
+            Item::Fn(f) if compiled_out(&f.attrs) => continue,
             Item::Fn(f) if t.impl_self.is_none() && f.sig.ident == t.func => return Some((&f.sig, &f.block, f.span().start().line)),
             Item::Impl(im) => {
                 let self_ok = match (&*im.self_ty, t.impl_self) { (Type::Path(p), Some(s)) => path_str(&p.path) == s, _ => false };
@@ -1202,7 +1276,7 @@ fn translate(t: &Target, sig: &Signature, block: &Block, ret_tys: &HashMap<Strin
                       call_ty: t.calls.iter().filter_map(|(a, b)| ret_tys.get(*b).map(|ty| (a.to_string(), ty.clone()))).collect(),
                       renames: vec![], tuple_hint: vec![], ret_ty: String::new(), inline_k: false, muts: vec![], rebind_ok: false, writers: vec![], loop_state: vec![], fuel: t.fuel.to_string(), retk_stack: vec![] };
     cx.inline_k = quote::ToTokens::to_token_stream(block).to_string().contains("let mut ");
-    let self_coq = match t.impl_self { Some("Side") => ("side", Ty::Side), Some("UserBounds") => ("ubound", Ty::UB), Some("UserBoundsList") => ("ublist", Ty::Other), Some("FastOpt") => ("gfopt", Ty::Other), Some("StreamOpt") => ("gsopt", Ty::Other), _ => ("UNKNOWN", Ty::Other) };
+    let self_coq = match t.impl_self { Some("Side") => ("side", Ty::Side), Some("UserBounds") => ("ubound", Ty::UB), Some("UserBoundsList") => ("ublist", Ty::Other), Some("FastOpt") => ("gfopt", Ty::Other), Some("StreamOpt") => ("gsopt", Ty::Other), Some("ForwardBounds") => ("gfb", Ty::Other), _ => ("UNKNOWN", Ty::Other) };
     let mut rty = Ty::Other;
     cx.ret_ty = match &sig.output {
         ReturnType::Type(_, t) => {
